@@ -56,6 +56,13 @@ __all__ = [
 ]
 
 
+def _has_type(obj: object, cls: Any) -> bool:
+    # Like isinstance(), but looks only at type(obj). isinstance() also
+    # consults obj.__class__, which raises for a dead weakref proxy and can
+    # run arbitrary code for other objects; a stack item can be anything.
+    return issubclass(type(obj), cls)
+
+
 def better_origin(candidate: object, fallback: object) -> object:
     """Returns *obj* if it is weak-referenceable and a better Frame.origin than
     *fallback*, else *fallback*."""
@@ -65,7 +72,7 @@ def better_origin(candidate: object, fallback: object) -> object:
         return fallback
     else:
         typelist = (types.CoroutineType, types.GeneratorType, types.AsyncGeneratorType)
-        if isinstance(candidate, typelist) or not isinstance(fallback, typelist):
+        if _has_type(candidate, typelist) or not _has_type(fallback, typelist):
             return candidate
         return fallback
 
@@ -121,7 +128,7 @@ def extract_iter(
             len(to_elaborate) < 2 or not isinstance(to_elaborate[0], Frame)
         ):
             origin, current, depth = to_unwrap.popleft()
-            if isinstance(current, types.FrameType):
+            if _has_type(current, types.FrameType):
                 # Only a frame that belongs to a generator or coroutine has
                 # something we can look inside to find it again later
                 if isinstance(origin, types.CoroutineType):
@@ -135,7 +142,7 @@ def extract_iter(
                 if origin_frame is not current:
                     origin = None
                 current = Frame(pyframe=current, origin=origin)
-            if isinstance(current, Frame):
+            if _has_type(current, Frame):
                 loops_since_progress = 0
                 to_elaborate.append((current, depth))
                 continue
@@ -182,7 +189,7 @@ def extract_iter(
         if not to_elaborate:
             break
 
-        if not isinstance(to_elaborate[0][0], Frame):
+        if not _has_type(to_elaborate[0][0], Frame):
             # We've reached a leaf
             assert not to_unwrap
             if len(to_elaborate) > 1:
@@ -195,7 +202,7 @@ def extract_iter(
         next_inner = to_elaborate[0][0] if to_elaborate else None
 
         if current_options.with_contexts:
-            next_pyframe = next_inner.pyframe if isinstance(next_inner, Frame) else None
+            next_pyframe = next_inner.pyframe if _has_type(next_inner, Frame) else None
             try:
                 frame.contexts = contexts_active_in_frame(
                     frame.pyframe, frame.origin, next_pyframe
@@ -339,7 +346,7 @@ def extract_child(stackitem: StackItem, *, for_task: bool) -> Stack:
             else:
                 error = errors[0] if errors else None
             return Stack(
-                root=(None if isinstance(stackitem, StackSlice) else stackitem),
+                root=(None if _has_type(stackitem, StackSlice) else stackitem),
                 frames=frames,
                 leaf=ex.value,
                 error=error,
